@@ -155,6 +155,37 @@ def check(ctx):
     _r4(ctx, pkg)
     _r5(ctx, pkg)
     _r6(ctx, pkg)
+    stateless_renderer(ctx, pkg, "R7")
+
+
+# ------------------------------------------------------------------ R7  a renderer keeps nothing between two renderings
+
+RENDERER_FILES = ("naunet/templateloader.py", "naunet/patches.py")
+
+
+def stateless_renderer(ctx, pkg, rule):
+    """What a rendering writes is a function of the network handed to THAT call: outside __init__ no method of TemplateLoader or of a
+    patch class stores or mutates an attribute of the renderer (a memo of prepared contents, of species positions, of the last network).
+    Such state makes the second rendering through the same loader depend on the first."""
+    from .c14 import _self_writes
+    n = 0
+    for ci in sorted(pkg.classes.values(), key=lambda c: c.name):
+        if ci.file not in RENDERER_FILES or "." in ci.name:
+            continue
+        for mname, fn in sorted(ci.methods.items()):
+            if mname == "__init__" or not isinstance(fn, ast.FunctionDef):
+                continue
+            n += 1
+            w = _self_writes(fn)
+            key = f"{ci.name}.{mname}:keeps no state"
+            if w:
+                a = sorted(w)[0]
+                ctx.bad(rule, key, (ci.file, w[a]), f"`{ci.name}.{mname}` stores into `self.{a}` of the renderer: what is kept there from one rendering is read by the next, so a second "
+                        "rendering through the same loader (after the network was edited, or of another network) pastes terms, positions or contents that belong to the first",
+                        expected="locals only; everything recomputed from the network of this call", found=", ".join(f"self.{x}" for x in sorted(w)))
+            else:
+                ctx.ok(rule, key, (ci.file, fn.lineno), "writes no attribute of the renderer")
+    ctx.floor(rule, "renderer methods", n, 6)
 
 
 # ------------------------------------------------------------------ R6  who may READ the process-global tables
